@@ -62,10 +62,7 @@ def run(cx):
     for m in (core, utils, btn, pot, ult, ser):
         cx.consulted(m)
     cx.explanation = (
-        "key-flow and who-may-mutate rules on the Core pin dictionaries, decision-list evaluation of _normalise_pin, "
-        "path-condition analysis of the read functions, rational-function normal form of Utils.map, call-count "
-        "analysis of sleep/providers/serial writes, guard-bounds of the sensor range checks; float exactness of map "
-        "is not decided"
+        'the Core pin simulation against a reference memory on every history of up to three operations; _normalise_pin as a decision list; Utils.map over a grid incl. reversed, huge-but-narrow and tiny ranges; sleep with recording sleepers; sensors, Button (provider signals and set_pressed histories) and SerialMonitor against recorder objects; ownership of the pin tables and of the Button state. Float exactness of map is not decided.'
     )
 
     # ---- C20-MEMORY --------------------------------------------------------------------------
